@@ -251,10 +251,13 @@ def extract_fn(relpath, qual, ann):
         k, want = _closure_key(k)
         ren = {}
         if k < len(it["closures"]) or want:
-            res = _resolve_closure(it["closures"], k, want, src, qual, ed, relpath, _srcline(src, s0))
+            _others = [_closure_key(k2)[1] for k2 in (ann.get("closures") or {}) if _closure_key(k2)[0] != k]
+            res = _resolve_closure(it["closures"], k, want, src, qual, ed, relpath, _srcline(src, s0), _others)
             if res is not None:
                 k, ren = res
                 ctext = _rename_words(ctext, ren)
+            elif want:
+                continue
         if k >= len(it["closures"]):
             # the annotated closure no longer exists (e.g. an `update(|c| ..)` replaced by a plain `save`): nothing to annotate;
             # the function is verified without it and its contract decides
@@ -520,7 +523,7 @@ def _closure_key(k):
     return int(parts[0]), ([x.strip() for x in parts[1].split(",") if x.strip()] if len(parts) > 1 and parts[1].strip() != "-" else ([] if len(parts) > 1 else None))
 
 
-def _resolve_closure(closures, k, want, src, where, ed, relpath, line):
+def _resolve_closure(closures, k, want, src, where, ed, relpath, line, others=None):
     """Which closure a `//@closure k a,b` annotation belongs to, and how its parameter names map to the current ones.
     1. closure #k has the recorded parameters -> it; 2. exactly one closure has them -> that one (ordinals shifted because a closure was
     added or removed before it); 3. closure #k has the same NUMBER of parameters -> the parameters were renamed: the annotation is applied
@@ -539,6 +542,14 @@ def _resolve_closure(closures, k, want, src, where, ed, relpath, line):
         if all(re.match(r"^\w+$", h) for h in have):
             ed.log.append({"file": relpath, "line": line, "rule": "A1", "note": f"closure annotation #{k} of {where}: parameters renamed {want} -> {have}, names substituted in the annotation"})
             return k, dict(zip(want, have))
+    # no closure carries those names and the one at that ordinal has another arity: if NO closure of that arity is left unclaimed the annotated
+    # closure is gone (e.g. `ITEM.update(|c| ..)` rewritten as load + save): there is nothing to annotate and the function's contract decides;
+    # otherwise one of them may be the annotated closure, renamed and moved, and verifying it bare could fail for want of its annotation
+    claimed = [w for w in (others or []) if w is not None]
+    loose = [c for c in closures if len(_closure_params(c, src)) == len(want) and _closure_params(c, src) not in claimed]
+    if not loose:
+        ed.log.append({"file": relpath, "line": line, "rule": "A1", "note": f"closure annotation #{k} of {where} not applied: no closure with parameters {want} (or any unclaimed one of that arity) is left"})
+        return None
     raise Inconclusive(f"anchor lost: closure #{k} of {where} (annotation written for parameters {want})")
 
 
@@ -1175,8 +1186,11 @@ def extract_segment(relpath, qual, ann):
     apply_ref_closure_params(ed, seg_closures, src, ann)
     for k, ctext in (ann.get("closures") or {}).items():
         k, want = _closure_key(k)
-        res = _resolve_closure(seg_closures, k, want, src, f"segment of {qual}", ed, relpath, _srcline(src, s0))
+        _others = [_closure_key(k2)[1] for k2 in (ann.get("closures") or {}) if _closure_key(k2)[0] != k]
+        res = _resolve_closure(seg_closures, k, want, src, f"segment of {qual}", ed, relpath, _srcline(src, s0), _others)
         if res is None:
+            if want:
+                continue
             raise Inconclusive(f"anchor lost: closure #{k} of segment of {qual}")
         k, ren = res
         ctext = _rename_words(ctext, ren)
